@@ -40,7 +40,18 @@ func newScriptSource(name string) *scriptSource {
 
 var pcEpoch = time.Date(2024, 1, 1, 0, 0, 0, 0, time.UTC)
 
-func versionTime(v int) string { return pcEpoch.Add(time.Duration(v) * time.Second).Format(time.RFC3339) }
+// versionTime is the advertisement time of version v: strictly increasing in v as an instant, written the way
+// different indexers write it (other zone offsets, fractional seconds), so that the text of a later time does not
+// always sort after the text of an earlier one.
+func versionTime(v int) string {
+	t := pcEpoch.Add(time.Duration(v) * time.Second)
+	if v%3 == 0 {
+		t = t.Add(500 * time.Millisecond)
+	}
+	return t.In(pcZones[v%len(pcZones)]).Format(time.RFC3339Nano)
+}
+
+var pcZones = []*time.Location{time.UTC, time.FixedZone("", 5*3600+1800), time.FixedZone("", -8*3600), time.UTC, time.FixedZone("", 14*3600)}
 
 // versionOf recovers the version from a record (0 for records without a time).
 func versionOf(pi *model.ProviderInfo) int { return pi.Lag }
